@@ -1,4 +1,5 @@
 /- Bridge C06: writer.go's reserve / headerSize, regenerated from source, are the model's. -/
+import WsVerif.Gen.Facts
 import WsVerif.Gen.Funcs
 import WsVerif.Model.Writer
 import WsVerif.Bridge.C03
@@ -47,5 +48,47 @@ theorem headerSize_bridge (s n : Nat) (hn : n < 2 ^ 63) :
       cases stIs s stClient <;> simp [h1, h1', h2, h2', h3']
 
 theorem consts_ok : Gen.ws_MaxControlFramePayloadSize = 125 ∧ Gen.ws_MinHeaderSize = 2 := by decide
+
+/-! the decision points of the writer's methods, in source order -/
+
+theorem conds_Writer_Write :
+    Gen.facts_wsutil_conds.filter (·.startsWith "Writer_Write:") =
+      ["Writer_Write: w.noFlush",
+       "Writer_Write: w.Buffered() == 0",
+       "Writer_Write: w.err != nil"] := by decide +kernel
+
+theorem conds_Writer_WriteThrough :
+    Gen.facts_wsutil_conds.filter (·.startsWith "Writer_WriteThrough:") =
+      ["Writer_WriteThrough: w.err != nil",
+       "Writer_WriteThrough: w.Buffered() != 0",
+       "Writer_WriteThrough: err != nil",
+       "Writer_WriteThrough: w.state.ClientSide()",
+       "Writer_WriteThrough: w.err == nil"] := by decide +kernel
+
+theorem conds_Writer_ReadFrom :
+    Gen.facts_wsutil_conds.filter (·.startsWith "Writer_ReadFrom:") =
+      ["Writer_ReadFrom: w.Available() == 0",
+       "Writer_ReadFrom: w.noFlush",
+       "Writer_ReadFrom: nn != 0 || err != nil",
+       "Writer_ReadFrom: nr == maxEmptyReads",
+       "Writer_ReadFrom: nn > 0",
+       "Writer_ReadFrom: err == io.EOF"] := by decide +kernel
+
+theorem conds_Writer_Grow :
+    Gen.facts_wsutil_conds.filter (·.startsWith "Writer_Grow:") =
+      ["Writer_Grow: size < len(w.raw)",
+       "Writer_Grow: size == len(w.raw)"] := by decide +kernel
+
+theorem conds_Writer_Flush :
+    Gen.facts_wsutil_conds.filter (·.startsWith "Writer_Flush:") =
+      ["Writer_Flush: (!w.dirty && w.Buffered() == 0) || w.err != nil"] := by decide +kernel
+
+theorem conds_Writer_FlushFragment :
+    Gen.facts_wsutil_conds.filter (·.startsWith "Writer_FlushFragment:") =
+      ["Writer_FlushFragment: w.Buffered() == 0 || w.err != nil"] := by decide +kernel
+
+theorem conds_writeFrame :
+    Gen.facts_wsutil_conds.filter (·.startsWith "writeFrame:") =
+      ["writeFrame: s.ClientSide()"] := by decide +kernel
 
 end Ws.Bridge.C06
